@@ -564,24 +564,14 @@ def newton(repo, run, rule_id="C02.4"):
     # consumer reads the same key
     call = repo.get(ITY, extract.RK + ".__call__")
     run.analysed_fn(ITY, call)
-    # redo variable name: second target of update_timestep unpack
-    redo_name = None
-    for st in walk_no_nested(call):
-        if isinstance(st, ast.Assign) and isinstance(st.value, ast.Call) and dotted(st.value.func) == "self.update_timestep" and \
-                isinstance(st.targets[0], ast.Tuple) and len(st.targets[0].elts) == 2 and isinstance(st.targets[0].elts[1], ast.Name):
-            redo_name = st.targets[0].elts[1].id
-    if redo_name is None:
-        raise AnalysisError("anchor missing: `timestep, redo = self.update_timestep()` in RungeKuttaIntegrator.__call__")
-    cl = CallClient(redo_name)
-    eng = Engine(cl)
-    init = [(i, a, "na", None) for i in (False, True) for a in (False, True)]
-    out = eng.run(call, init)
+    from .. import rkcall
+    m_, out, eng = rkcall.analyse(call)
     bad = [(s, n) for (s, n) in out.ret if s[0] and s[2] != "ok"]
     run.judged(rid, "typestate of __call__: %d return states, %d exceptional exits, %d abstract steps" % (len(out.ret), len(out.exc), eng.visits),
                ok=not bad)
     for s, n in bad[:1]:
-        run.report(rule_id, ITY, n, "a `return` is reachable for an implicit method (adaptive=%s) whose last stage solve %s: an unsolved "
-                                    "implicit step is handed back as accepted" % (s[1], "failed" if s[2] == "bad" else "was never attempted"),
+        run.report(rule_id, ITY, n, "a `return` is reachable for an implicit method (adaptive=%s) whose last stage solve %s (redo flag %s at that point): an unsolved "
+                                    "implicit step is handed back as accepted" % (s[1], "failed" if s[2] == "bad" else "was never attempted", s[3]),
                    text="return reachable with unsolved implicit stages (adaptive=%s, redo=%s)" % (s[1], s[3]))
     # implicit methods must reach the acceptance logic at all: some path returns ok for implicit
     reach = [s for (s, n) in out.ret if s[0] and s[2] == "ok"]
